@@ -325,6 +325,10 @@ class NetFamily(Family):
         m["A"], m["attrs"] = A, {}
 
     def m_weights(self, o, m, arg):
+        if arg is None:          # documented: back to unit weights
+            o.node_weights = None
+            m["w"] = None
+            return
         w = (list(arg) * m["n"])[:m["n"]]
         o.node_weights = w
         m["w"] = w
@@ -1309,7 +1313,7 @@ def net_cases(draw, family):
         "adjacency_dense": _graph_arg(n, directed),
         "adjacency_sparse": _graph_arg(n, directed),
         "set_edge_list": _graph_arg(n, directed),
-        "node_weights": vals,
+        "node_weights": st.one_of(vals, vals, vals, st.none()),
         "set_link_attribute": vals,
         "del_link_attribute": st.none(),
         "randomly_rewire": st.tuples(st.integers(1, 5), st.integers(0, 999),
@@ -1348,9 +1352,12 @@ def geo_cases(draw, rewire=False):
              "node_weights": st.lists(st.integers(1, 12).map(
                  lambda k: k / 4.0), min_size=3, max_size=8),
              "rewire_geomodel": rnd, "set_random_links_by_distance": rnd}
-    if rewire:      # histories of the randomising mutators only
+    if rewire:      # histories of the randomising mutators ...
         margs = {k: margs[k] for k in ("rewire_geomodel", "rewire_geomodel",
                                        "set_random_links_by_distance")}
+    else:           # ... and of the deterministic ones, kept apart
+        margs = {k: margs[k] for k in ("set_node_weight_type",
+                                       "adjacency_dense", "node_weights")}
     return {"family": "GeoNetwork", "g": g, "lat": draw(la),
             "lon": draw(lo), "nwt": draw(nwts),
             "ops": draw(ops_strategy("GeoNetwork", margs))}
@@ -1635,7 +1642,7 @@ def _pair_bases():
                              ("InteractingNetworks", _G6, _G6B)):
         n, d = g1["n"], g1["directed"]
         margs = {"adjacency_dense": [g2, g1], "adjacency_sparse": [g2, g1],
-                 "set_edge_list": [g2, g1], "node_weights": _VALS,
+                 "set_edge_list": [g2, g1], "node_weights": [None] + _VALS,
                  "set_link_attribute": _VALS, "del_link_attribute": [None],
                  "randomly_rewire": [[3, 5, 7], [2, 11, 13]]}
         out.append(({"family": fam_name, "g": g1, "w": _W6[:n],
@@ -1646,7 +1653,7 @@ def _pair_bases():
                  "del_link_attribute": [None]}))
     out.append(({"family": "GeoNetwork", "g": _G6, "lat": lat6, "lon": lon6,
                  "nwt": "surface"},
-                {"set_node_weight_type": ["irrigation", None, "surface"],
+                {"set_node_weight_type": [None, "irrigation", "surface"],
                  "adjacency_dense": [_G6B, _G6], "node_weights": _VALS}))
     out.append(({"family": "ClimateNetwork", "S": S6, "lat": lat6,
                  "lon": lon6, "thr": 0.425, "nl": False, "nwt": "surface"},
